@@ -3,6 +3,7 @@
 Round-trip monitor on the real entry points under the default stacks, over grammar derivations
 (with resolved/unresolved @string references) x a grid of BibtexFormat settings.
 """
+import re
 import itertools
 
 from ..core import Violation, rng_for, tier_pick
@@ -101,15 +102,18 @@ def check(case, ctx):
         return out
     p1, p2 = sp.project_lib(l1), sp.project_lib(l2)
     ctx.mon("roundtrip_content")
+    # mechanism tag: an entry type whose lower-cased form is no longer a word (U+0130 'İ' -> 'i' + combining dot)
+    odd_type = any(sp.block_kind(b) == "entry" and not re.fullmatch(r"\w+", b.entry_type or "x") for b in l1.blocks)
+    tag = ":entry-type-lowercases-out-of-word-class" if odd_type else ""
     if p1 != p2:
         i = next((j for j, (a, b) in enumerate(zip(p1, p2)) if a != b), min(len(p1), len(p2)))
         k1 = p1[i][0] if i < len(p1) else "none"
         k2 = p2[i][0] if i < len(p2) else "none"
-        out.append(Violation("content-differs", f"C05:content-differs:{k1}>{k2}",
+        out.append(Violation("content-differs", f"C05:content-differs:{k1}>{k2}{tag}",
                              dict(text=text, fmt=fmt, written=w1, first=p1[i:i + 1], second=p2[i:i + 1])))
     ctx.mon("fixpoint_bytes")
     if w1 != w2:
-        out.append(Violation("not-a-fixpoint", "C05:not-a-fixpoint", dict(text=text, fmt=fmt, w1=w1, w2=w2)))
+        out.append(Violation("not-a-fixpoint", "C05:not-a-fixpoint" + tag, dict(text=text, fmt=fmt, w1=w1, w2=w2)))
     resolved = any(b.parser_metadata.get("ResolveStringReferences") for b in l1.entries)
     if resolved:
         ctx.mon("resolved_reference_docs")
